@@ -582,16 +582,21 @@ def ob_dial_name(report, prop):
     def body(ob):
         def m_server_name(ex, p, call, k):
             k(p, Ptr(('H', 'PRIMARY_NAME', 'str')))
-        ex = e2.executor('anemo', [(r'EndpointConfig::server_name$', m_server_name)], max_depth=1)
-        fn = find_method(ex.prog, 'Endpoint', 'connect_with_client_config')
-        res = ex.run(fn, [])
-        n = 0
-        for r in res:
-            cw = [e for e in r.events if e.kind == 'call' and e.name.endswith('quinn::Endpoint::connect_with')]
-            if r.tag != 'return' or len(cw) != 1:
-                return viol(prop, ob, [ex], 'connect_with_client_config does not issue exactly one quinn connect_with', 'dialname-connect', path_summary(r), len(res))
-            if vname(ex.deref(r.path, cw[0].args[3])) != 'PRIMARY_NAME.*' and 'PRIMARY_NAME' not in vname(cw[0].args[3]):
-                return viol(prop, ob, [ex], f'the dial offers {vrepr(cw[0].args[3])[:60]} as network name, not the endpoint\'s primary server name', 'dialname-name', path_summary(r), len(res))
-            n += 1
-        ob.done([ex], 'held' if n else 'inconclusive', '', {'paths': len(res)}, paths=len(res))
-    return guarded(report, 'dialer_offers_primary_name', 'Endpoint::connect_with_client_config always dials with config.server_name() (the primary network name)', ['Endpoint::connect_with_client_config'], {}, body)
+        ex = e2.executor('anemo', [(r'EndpointConfig::server_name$', m_server_name)], max_depth=4)
+        n = total = 0
+        for entry in ('connect', 'connect_with_expected_peer_id'):
+            fn = find_method(ex.prog, 'Endpoint', entry)
+            res = ex.run(fn, [])
+            total += len(res)
+            for r in res:
+                cw = [e for e in r.events if e.kind == 'call' and e.name.endswith('quinn::Endpoint::connect_with')]
+                if r.tag != 'return' or not cw:
+                    continue            # lock poisoning / configuration errors before anything is dialed
+                if len(cw) != 1:
+                    return viol(prop, ob, [ex], f'Endpoint::{entry} issues {len(cw)} quinn connect_with calls on one path', 'dialname-connect', path_summary(r), total)
+                if vname(ex.deref(r.path, cw[0].args[3])) != 'PRIMARY_NAME.*' and 'PRIMARY_NAME' not in vname(cw[0].args[3]):
+                    return viol(prop, ob, [ex], f'the dial offers {vrepr(cw[0].args[3])[:60]} as network name, not the endpoint\'s primary server name', 'dialname-name', path_summary(r), total)
+                n += 1
+        ob.done([ex], 'held' if n else 'inconclusive', '', {'paths': total}, paths=total)
+    return guarded(report, 'dialer_offers_primary_name', 'every dial (Endpoint::connect, Endpoint::connect_with_expected_peer_id) reaches quinn::Endpoint::connect_with with config.server_name() '
+                   '(the primary network name) as the offered name', ['Endpoint::connect', 'Endpoint::connect_with_expected_peer_id'], {'inline_depth': 4}, body)
